@@ -1,0 +1,41 @@
+//go:build verif
+
+package event
+
+import "gorm.io/gorm"
+
+// Verification hook (build tag `verif` only).  Add-only; not compiled without the tag.
+//
+// ProcessEvents answers "process events failed" whatever made a tag handler fail; the reason is only
+// logged.  VerifBridgeObserveDBErrors lets the harness tell a statement the DATABASE refused (sqlite
+// dialect limits of the in-memory event database, constraint failures ...) from a handler that
+// refused the events by its own logic: it registers one observer after each of gorm's statement
+// processors (create, query, update, delete, row, raw) that reports the statement's error, if any.
+// The statements themselves run unchanged.
+func VerifBridgeObserveDBErrors(edb *EventDb, observe func(kind, sql, err string)) error {
+	db := edb.Store.Get()
+	report := func(kind string) func(*gorm.DB) {
+		return func(tx *gorm.DB) {
+			if tx.Error != nil && observe != nil {
+				observe(kind, tx.Statement.SQL.String(), tx.Error.Error())
+			}
+		}
+	}
+	cb := db.Callback()
+	if err := cb.Create().After("gorm:create").Register("verif:dberr_create", report("create")); err != nil {
+		return err
+	}
+	if err := cb.Query().After("gorm:query").Register("verif:dberr_query", report("query")); err != nil {
+		return err
+	}
+	if err := cb.Update().After("gorm:update").Register("verif:dberr_update", report("update")); err != nil {
+		return err
+	}
+	if err := cb.Delete().After("gorm:delete").Register("verif:dberr_delete", report("delete")); err != nil {
+		return err
+	}
+	if err := cb.Row().After("gorm:row").Register("verif:dberr_row", report("row")); err != nil {
+		return err
+	}
+	return cb.Raw().After("gorm:raw").Register("verif:dberr_raw", report("raw"))
+}
